@@ -4,12 +4,15 @@ import (
 	"encoding/binary"
 	"encoding/json"
 	"fmt"
+	"os"
+	"sort"
 	"strings"
 	"sync"
 
 	"github.com/nspcc-dev/neo-go/pkg/core/native/nativehashes"
 	"github.com/nspcc-dev/neo-go/pkg/core/state"
 	"github.com/nspcc-dev/neo-go/pkg/core/transaction"
+	"github.com/nspcc-dev/neo-go/pkg/crypto/hash"
 	"github.com/nspcc-dev/neo-go/pkg/io"
 	"github.com/nspcc-dev/neo-go/pkg/neotest"
 	"github.com/nspcc-dev/neo-go/pkg/smartcontract"
@@ -18,6 +21,7 @@ import (
 	"github.com/nspcc-dev/neo-go/pkg/util"
 	"github.com/nspcc-dev/neo-go/pkg/vm/emit"
 	"github.com/nspcc-dev/neo-go/pkg/vm/opcode"
+	"github.com/nspcc-dev/neo-go/pkg/vm/stackitem"
 
 	"verif/lib/chainx"
 	"verif/lib/vk"
@@ -143,10 +147,10 @@ func buildEntryContract(name string, sender util.Uint160, perms []manifest.Permi
 	a.label("pskip")
 	a.op(opcode.DROP, opcode.RET)
 
-	m("load", 1, smartcontract.VoidType) // script
-	a.op(opcode.NEWARRAY0, opcode.SWAP, opcode.PUSH15, opcode.SWAP)
+	m("load", 2, smartcontract.AnyType)                  // script, flags -> result of the loaded script
+	a.op(opcode.NEWARRAY0, opcode.REVERSE3, opcode.SWAP) // script, flags, args
 	a.syscall("System.Runtime.LoadScript")
-	a.op(opcode.DROP, opcode.RET)
+	a.op(opcode.RET)
 
 	m("set", 2, smartcontract.VoidType) // key, value
 	a.syscall("System.Storage.Local.Put")
@@ -358,7 +362,7 @@ func (pw *permWorld) entryRun(ctx, kind string, cs callerSpec, tok int, c *calle
 		if kind == "token" {
 			return "", "", false
 		}
-		got, detail = run(callScript(e.Hash, "load", 15, callScript(c.Hash, md.Name, 15, md.Args(e.Hash)...)))
+		got, detail = run(callScript(e.Hash, "load", 15, callScript(c.Hash, md.Name, 15, md.Args(e.Hash)...), 15))
 	case "verify-witness", "verify-tx":
 		tx, err := pw.verifyTx(e.Hash, entryProg(c, md, e.Hash, sel))
 		if err != nil {
@@ -400,16 +404,25 @@ type entryCell struct {
 }
 
 type entryStats struct {
-	cells, na, blocks int64
-	loadSkips         int64 // loaded scripts calling a method the loader's manifest does not permit
-	byCtx             map[string]int64
+	cells, na, blocks                 int64
+	loadCells                         int64 // cells of the loaded-script flags oracle
+	loadHalt                          int64
+	loadWitnessRefused, loadFlagsSeen int64
+	byCtx                             map[string]int64
 }
 
 // judgeEntry evaluates one cell; it returns a violation key ("" = fine).
 func judgeEntry(ec *entryCase, perms []permShape, c *callee, md calleeMethod) string {
 	want := md.Safe || allowedBy(perms, c, md.Name)
-	ec.Want = verdict(want)
 	who := fmt.Sprintf("permission:%s:%s:%s->%s.%s", ec.Sub, ec.Kind, ec.Caller.String(), ec.Callee, ec.Method)
+	if ec.Context == "loadscript" {
+		// A dynamically loaded script is not a deployed contract (it runs under its
+		// own script hash, like an entry script): no manifest permission check
+		// applies to its calls. What confines it is checked by loadFlags().
+		want = true
+		who = fmt.Sprintf("flags:%s:%s->%s.%s", ec.Sub, ec.Caller.String(), ec.Callee, ec.Method)
+	}
+	ec.Want = verdict(want)
 	switch {
 	case ec.Got == "denied" && want:
 		return who + ":denied-but-predicate-allowed"
@@ -445,7 +458,7 @@ type entryRunner struct {
 	st       *entryStats
 	mu       sync.Mutex
 	reported map[string]int
-	loadWit  *entryCase
+	best     map[string]entryWitness
 }
 
 func (er *entryRunner) judge(ec entryCase, perms []permShape, c *callee, md calleeMethod) {
@@ -459,23 +472,36 @@ func (er *entryRunner) judge(ec entryCase, perms []permShape, c *callee, md call
 		er.r.Sample(map[string]any{"sub": ec.Sub, "kind": ec.Kind, "caller_permissions": ec.Caller.String(), "callee": ec.Callee, "method": ec.Method, "result": ec.Got})
 		return
 	}
-	if ec.Context == "loadscript" && ec.Got != "denied" && ec.Want == "denied" {
-		// one root cause, one key: the context of a loaded script has no manifest
-		er.st.loadSkips++
-		if er.loadWit == nil || ec.Caller.String()+ec.Callee+ec.Method < er.loadWit.Caller.String()+er.loadWit.Callee+er.loadWit.Method {
-			cp := ec
-			er.loadWit = &cp
-		}
-		er.r.Outcome(ec.Sub + ":loaded-script-called-unpermitted-method")
-		return
-	}
+	// one witness per (context, kind of mismatch): the smallest case, reported by flush()
 	cls := "entry-" + ec.Context + ":" + key[strings.LastIndex(key, ":")+1:]
 	er.reported[cls]++
-	if er.reported[cls] <= 1 && er.reported["total"] < 8 { // a root cause is reported a few times at most
-		er.reported["total"]++
-		er.r.Violation(key, ec)
-	} else {
-		er.r.Outcome("suppressed-duplicate:" + cls)
+	rank := func(k string, e entryCase) string {
+		return fmt.Sprintf("%v %d %s", strings.Contains(e.Sub, "after-restart"), len(e.Caller.Perms), k)
+	}
+	if w, ok := er.best[cls]; !ok || rank(key, ec) < rank(w.key, w.ec) {
+		er.best[cls] = entryWitness{key, ec}
+	}
+}
+
+type entryWitness struct {
+	key string
+	ec  entryCase
+}
+
+// flush reports the witnesses (a root cause is reported a few times at most).
+func (er *entryRunner) flush() {
+	var cl []string
+	for c := range er.best {
+		cl = append(cl, c)
+	}
+	sort.Strings(cl)
+	for i, c := range cl {
+		if i >= 8 {
+			er.r.Outcome("suppressed-duplicate:" + c)
+			continue
+		}
+		w := er.best[c]
+		er.r.Violation(w.key, map[string]any{"sub": w.ec.Sub, "case": w.ec, "cells_in_this_class": er.reported[c]})
 	}
 }
 
@@ -573,4 +599,276 @@ func (pw *permWorld) clone() (*chainx.Node, error) {
 	}
 	b := rs.Batches()
 	return chainx.New(chainx.Opts{Proto: allHF, Store: chainx.NewRecStore(chainx.ApplyBatches(b, len(b)))})
+}
+
+// replayEntry re-runs one cell of the entry-context matrix 5 times on a fresh chain.
+func replayEntry(r *vk.Run, ec entryCase) {
+	pw, err := newPermWorld()
+	if err != nil {
+		fmt.Println("CHECK-ERROR:", err)
+		os.Exit(3)
+	}
+	defer func() { pw.n.Close() }()
+	shapes := []callerSpec{ec.Caller, {Perms: []permShape{{Desc: "*", Wild: true}}}}
+	if err := pw.deployEntryCallers(shapes); err != nil {
+		fmt.Println("CHECK-ERROR:", err)
+		os.Exit(3)
+	}
+	if strings.Contains(ec.Sub, "after-restart") {
+		m, err := pw.n.Reopen()
+		if err != nil {
+			fmt.Println("CHECK-ERROR:", err)
+			os.Exit(3)
+		}
+		pw.n = m
+	}
+	c := pw.byName[ec.Callee]
+	tok, k := 0, 0
+	var md calleeMethod
+	for _, cc := range pw.callees {
+		for _, m := range cc.Methods {
+			if cc == c && m.Name == ec.Method {
+				md, tok = m, k
+			}
+			k++
+		}
+	}
+	for i := 0; i < 5; i++ {
+		x := ec
+		var detail string
+		if ec.Context == "verify-block" {
+			sel := -1
+			if ec.Kind == "token" {
+				sel = tok
+			}
+			x.Got = "ok"
+			tx, err := pw.verifyTx(shapes[0].ec.Hash, entryProg(c, md, shapes[0].ec.Hash, sel))
+			if err == nil {
+				var cl *chainx.Node
+				if cl, err = pw.clone(); err == nil {
+					_, err = cl.AddBlock(tx)
+					cl.Close()
+				}
+			}
+			if err != nil {
+				x.Got, detail = classify("FAULT", err.Error()), err.Error()
+			}
+		} else {
+			x.Got, detail, _ = pw.entryRun(ec.Context, ec.Kind, shapes[0], tok, c, md, &shapes[1])
+		}
+		key := judgeEntry(&x, ec.Caller.Perms, c, md)
+		fmt.Printf("replay %d: %s %s %s -> %s.%s: %s (predicate %s) %s\n", i, x.Sub, x.Kind, ec.Caller.String(), ec.Callee, ec.Method, x.Got, x.Want, detail)
+		if key != "" {
+			if ec.Context == "loadscript" {
+				key = "permission:entry-loadscript:loaded-script-skips-permission-check"
+			}
+			r.Violation(key, x)
+		}
+	}
+}
+
+// ---- what confines a dynamically loaded script -------------------------------------------------
+
+// loadCase is one cell of the loaded-script flags oracle (replay detail).
+type loadCase struct {
+	Sub     string   `json:"sub"` // entry-loadscript-flags
+	Loader  string   `json:"loader_permissions"`
+	FL      int      `json:"loader_flags"`
+	FA      int      `json:"flags_argument"`
+	Target  string   `json:"target"`
+	What    string   `json:"what"`
+	Effects *effects `json:"effects,omitempty"`
+}
+
+type loadTarget struct {
+	name   string
+	script func(e util.Uint160) []byte
+}
+
+func (pw *permWorld) loadTargets() []loadTarget {
+	cn := pw.byName["Cn"].Hash
+	put := []any{chainx.OpPut, []byte("x"), []byte("1")}
+	call := func(method string, prog ...any) func(util.Uint160) []byte {
+		return func(util.Uint160) []byte { return callScript(cn, method, 15, append([]any{}, prog...)) }
+	}
+	getFlags := func(util.Uint160) []byte { return getFlagsScript }
+	return []loadTarget{
+		{"getflags", getFlags},
+		{"Cn.run[]", call("run")},
+		{"Cn.run[put]", call("run", put)},
+		{"Cn.run[notify]", call("run", []any{chainx.OpNotify, 1})},
+		{"Cn.run[getflags]", call("run", []any{chainx.OpGetFlags})},
+		{"Cn.runSafe[put]", call("runSafe", put)},
+		{"Cn.runSafe[notify]", call("runSafe", []any{chainx.OpNotify, 1})},
+		{"Cn.other", func(util.Uint160) []byte { return callScript(cn, "other", 15, 1) }},
+		{"Cn.run[checkwitness-loader]", func(e util.Uint160) []byte {
+			return callScript(cn, "run", 15, []any{[]any{chainx.OpCheckWitness, e.BytesBE()}})
+		}},
+		{"GAS.transfer-from-loader", func(e util.Uint160) []byte {
+			return callScript(nativehashes.GasToken, "transfer", 15, e.BytesBE(), chainx.Acc(1).ScriptHash().BytesBE(), 1, nil)
+		}},
+		{"GAS.balanceOf", func(e util.Uint160) []byte { return callScript(nativehashes.GasToken, "balanceOf", 15, e.BytesBE()) }},
+	}
+}
+
+// loadFlags: loader E (called with flags fl) loads a script with flags
+// argument fa, for all 16x16 pairs and every target. Demanded (all stated by
+// the property): the loaded script and everything it calls run with a subset
+// of ReadStates|AllowCall, of fl and of fa; hence no storage change and no
+// notification in any cell; a callee is executed only if AllowCall is in fl and
+// fa; the callee sees the script's hash, not the loader, as its caller (a
+// CheckWitness(loader) inside the callee is false); the call is never refused
+// for manifest permissions, whatever the loader's manifest says.
+func (er *entryRunner) loadFlags(shapes []callerSpec) {
+	pw := er.pw
+	type cell struct {
+		cs     callerSpec
+		fl, fa int
+		t      loadTarget
+	}
+	var cells []cell
+	for _, cs := range shapes {
+		for _, t := range pw.loadTargets() {
+			for _, fl := range flagOrder {
+				for _, fa := range flagOrder {
+					cells = append(cells, cell{cs, fl, fa, t})
+				}
+			}
+		}
+	}
+	var mu sync.Mutex
+	best := map[string]struct {
+		key string
+		lc  loadCase
+	}{}
+	er.r.Parallel(len(cells), func(i int) {
+		x := cells[i]
+		e := x.cs.ec.Hash
+		ef := pw.run(callScript(e, "load", x.fl, x.t.script(e), x.fa), fAll)
+		mu.Lock()
+		er.st.loadCells++
+		mu.Unlock()
+		if ef.State != "HALT" {
+			if strings.Contains(ef.Fault, "disallowed method call") {
+				ef.State = "HALT-less" // judged below
+			} else {
+				er.r.Outcome("entry-loadscript-flags:FAULT")
+				return
+			}
+		}
+		mu.Lock()
+		er.st.loadHalt++
+		mu.Unlock()
+		eff := x.fl & x.fa & (fR | fC)
+		var what, kind string
+		calleeRan := false
+		for h := range ef.ctxs {
+			if h != e && h != hash.Hash160(x.t.script(e)) {
+				calleeRan = true
+			}
+		}
+		var ints []int
+		var bools []bool
+		for _, it := range ef.stack {
+			flattenInts(it, &ints)
+			flattenBools(it, &bools)
+		}
+		switch {
+		case ef.State != "HALT":
+			kind, what = "refused-for-manifest-permissions", "a call made by a loaded script was refused with 'disallowed method call' although no manifest applies to a loaded script"
+		case len(ef.Diff) > 0:
+			kind, what = "storage-changed", "storage changed through a dynamically loaded script (its flags are at most ReadStates|AllowCall)"
+		case len(ef.Notifs) > 0:
+			kind, what = "notified", "a notification was emitted through a dynamically loaded script"
+		case calleeRan && eff&fC == 0:
+			kind, what = "called-without-AllowCall", "a contract was executed although AllowCall is missing in the loader's flags or in the flags argument"
+		case (x.t.name == "getflags" || x.t.name == "Cn.run[getflags]") && len(ints) == 1 && ints[0]&^eff != 0:
+			kind, what = "flags-grew", fmt.Sprintf("GetCallFlags inside is %s, not a subset of ReadOnly & loader %s & argument %s", fname(ints[0]), fname(x.fl), fname(x.fa))
+		case x.t.name == "Cn.run[checkwitness-loader]" && len(bools) == 1 && bools[0]:
+			kind, what = "loader-identity-lent", "CheckWitness(loader) inside a callee reached through the loaded script is true: the callee must see the script's hash as its caller"
+		}
+		if kind == "" {
+			mu.Lock()
+			if x.t.name == "Cn.run[checkwitness-loader]" && len(bools) == 1 && !bools[0] {
+				er.st.loadWitnessRefused++
+			}
+			if (x.t.name == "getflags" || x.t.name == "Cn.run[getflags]") && len(ints) == 1 {
+				er.st.loadFlagsSeen++
+			}
+			mu.Unlock()
+			er.r.Outcome("entry-loadscript-flags:HALT")
+			er.r.Sample(map[string]any{"sub": "entry-loadscript-flags", "loader_flags": fname(x.fl), "flags_argument": fname(x.fa), "target": x.t.name, "stack": ef.Stack})
+			return
+		}
+		lc := loadCase{Sub: "entry-loadscript-flags", Loader: x.cs.String(), FL: x.fl, FA: x.fa, Target: x.t.name, What: what, Effects: ef}
+		key := fmt.Sprintf("flags:entry-loadscript:%s:%s:%s:%s:%s", fname(x.fl), fname(x.fa), x.t.name, x.cs.String(), kind)
+		mu.Lock()
+		rank := fmt.Sprintf("%02d %s", popcount(x.fl)+popcount(x.fa), key)
+		if b, ok := best[kind]; !ok || rank < b.key {
+			best[kind] = struct {
+				key string
+				lc  loadCase
+			}{rank, lc}
+		}
+		mu.Unlock()
+	})
+	var kinds []string
+	for k := range best {
+		kinds = append(kinds, k)
+	}
+	sort.Strings(kinds)
+	for _, k := range kinds {
+		b := best[k]
+		er.r.Violation(b.key[3:], b.lc)
+	}
+}
+
+func popcount(f int) int {
+	n := 0
+	for ; f != 0; f &= f - 1 {
+		n++
+	}
+	return n
+}
+
+func flattenBools(it stackitem.Item, out *[]bool) {
+	switch it.Type() {
+	case stackitem.ArrayT, stackitem.StructT:
+		for _, x := range it.Value().([]stackitem.Item) {
+			flattenBools(x, out)
+		}
+	case stackitem.BooleanT:
+		b, _ := it.TryBool()
+		*out = append(*out, b)
+	}
+}
+
+// replayLoad re-runs one cell of the loaded-script flags oracle 5 times.
+func replayLoad(r *vk.Run, lc loadCase) {
+	pw, err := newPermWorld()
+	if err != nil {
+		fmt.Println("CHECK-ERROR:", err)
+		os.Exit(3)
+	}
+	defer func() { pw.n.Close() }()
+	shapes := []callerSpec{{Perms: []permShape{}}, {Perms: []permShape{{Desc: "*", Wild: true}}}}
+	if err := pw.deployEntryCallers(shapes); err != nil {
+		fmt.Println("CHECK-ERROR:", err)
+		os.Exit(3)
+	}
+	cs := shapes[0]
+	if lc.Loader != cs.String() {
+		cs = shapes[1]
+	}
+	for _, t := range pw.loadTargets() {
+		if t.name != lc.Target {
+			continue
+		}
+		for i := 0; i < 5; i++ {
+			ef := pw.run(callScript(cs.ec.Hash, "load", lc.FL, t.script(cs.ec.Hash), lc.FA), fAll)
+			fmt.Printf("replay %d: loader %s flags %s, argument %s, %s: %s diff=%v notifications=%v contexts=%v stack=%s %s\n", i, cs.String(), fname(lc.FL), fname(lc.FA), t.name, ef.State, ef.Diff, ef.Notifs, ef.Ctxs, ef.Stack, ef.Fault)
+		}
+	}
+	er := &entryRunner{r: r, pw: pw, st: &entryStats{byCtx: map[string]int64{}}, reported: map[string]int{}, best: map[string]entryWitness{}}
+	er.loadFlags([]callerSpec{cs})
 }
